@@ -12,10 +12,11 @@ theorem inv_work_dfach (c : Cfg) (ar aq : Nat) (s : S) (h : Inv c ar aq s) (hrun
     (hp : s.phase = .DownFilterAfterChooseHost) : Inv c ar aq (finishPhase c s) := by
   apply finish_inv c ar aq s h hrun
   · intro hh; rw [hp] at hh; cases hh
+  · intro hh; rw [hp] at hh; cases hh
   · intro _ _
     have hcl := inv_not_cleaned h hrun
     obtain ⟨k0, k1, k2, k3, k4, k5, k6, k7, k8, k9, k10, k11, k12, k13, k14, k15, k16, k17, k18, k19, k20, k21, k22, k23, k24, k25, k26, k27, k28, k29, k30, k31, k32, k33⟩ := h
-    refine ⟨k0, k1, k2, k3, k4, k5, k6, k7, ?_, k9, k10, k11, k12, k13, k14, ?_, ?_, ?_, ?_, ?_, k20, k21, k22, ?_, k24, k25, ?_, ?_, k28, ?_, ?_, k31, ?_, k33⟩
+    refine ⟨k0, k1, k2, k3, k4, k5, k6, k7_frame k7 hcl (by rw [hp]; decide) rfl rfl, ?_, k9, k10, k11, k12, k13, k14, ?_, ?_, ?_, ?_, ?_, k20, k21, k22, ?_, k24, k25, ?_, ?_, k28, ?_, ?_, k31, ?_, k33⟩
     · simp only [K8, hp, fwdPhase, upPhase, prePhase, Phase.next] at k8 ⊢; grind
     · simp only [K15, hp, fwdPhase, upPhase, prePhase, Phase.next] at k15 ⊢; grind
     · simp only [K16, hp, fwdPhase, upPhase, prePhase, Phase.next] at k16 ⊢; grind
@@ -58,7 +59,8 @@ theorem inv_work_drh (c : Cfg) (ar aq : Nat) (s : S) (h : Inv c ar aq s) (hrun :
     Inv c ar aq (finishPhase c (receiveHeaders c s eos)) := by
   have hcl := inv_not_cleaned h hrun
   obtain ⟨hst, hrq, hpt, hgt, hurr, hur, hge⟩ := h.k30 hcl (Or.inr hp)
-  obtain ⟨hsr, hdir⟩ := h.k7 hcl
+  have hsr := (h.k7 hcl).1
+  have hdir : s.direct = false := not_direct_of_phase h.k7 hcl (by rw [hp]; decide)
   have hpd : s.procDone = false := by
     cases hh : s.procDone with
     | false => rfl
@@ -204,7 +206,7 @@ theorem inv_work_drh (c : Cfg) (ar aq : Nat) (s : S) (h : Inv c ar aq s) (hrun :
           have h3' : K3 (drhOk c s eos rq pt gt) := by simpa [K3, drhOk, snd_append, snd_append2, sndStep] using h.k3
           unfold drhOk at hb1 h3' ⊢
           obtain ⟨k0, k1, k2, k3, k4, k5, k6, k7, k8, k9, k10, k11, k12, k13, k14, k15, k16, k17, k18, k19, k20, k21, k22, k23, k24, k25, k26, k27, k28, k29, k30, k31, k32, k33⟩ := h
-          refine ⟨k0, hb1.k1, hb1.k2, h3', hb1.k4, k5, k6, k7, ?_, k9, hb1.k10, hb1.k11, k12, hb1.k13, hb1.k14, ?_, ?_, ?_, ?_, ?_, hb1.k20, hoff, hb1.k22, ?_, ?_, ?_, ?_, ?_, ?_, ?_, ?_, hb1.k31, ?_, (fun hh => absurd hh (by simp [hcl]))⟩
+          refine ⟨k0, hb1.k1, hb1.k2, h3', hb1.k4, k5, k6, k7_intro hsr hdir, ?_, k9, hb1.k10, hb1.k11, k12, hb1.k13, hb1.k14, ?_, ?_, ?_, ?_, ?_, hb1.k20, hoff, hb1.k22, ?_, ?_, ?_, ?_, ?_, ?_, ?_, ?_, hb1.k31, ?_, (fun hh => absurd hh (by simp [hcl]))⟩
           · intro _; exact ⟨by show s.pass ≤ 1; omega, Or.inl hps⟩
           · intro _ hh; simp [hp, Phase.next, upPhase] at hh
           · intro _ _; exact hrst
